@@ -20,6 +20,8 @@ impl<'a> System for Sys<'a> {
     }
     fn step(&self, _cfg: &Cfg, vt: &mut Vt, op: &Op, out: Option<&mut Out>) {
         let _ = apply(vt, op);
+        // (read and thrown away: asking does not change what the reset has to undo)
+        let _ = (vt.dump(), vt.text());
         if let Some(out) = out {
             out.obs_hash = Some(crate::obs::hash_obs(&obs(vt)));
         }
